@@ -75,7 +75,7 @@ def main(argv=None):
         return 0
     # the thorough tier samples from a larger pool of jobs: keep a seeded selection that fits the tier's time budget
     generated = len(jobs)
-    cap = getattr(mod, "MAXJOBS", {}).get(tier, 170 if tier == "thorough" else None)
+    cap = getattr(mod, "MAXJOBS", {}).get(tier, 130 if tier == "thorough" else None)
     if cap and len(jobs) > cap and not a.only:
         import random as _random
 
